@@ -1,6 +1,8 @@
 (* C13 — Disconnecting a block exactly undoes connecting it.  Property theorems only. *)
 From Coq Require Import List ZArith NArith Bool.
-From ELA Require Import model.Ledger proof.Ledger_unspent proof.C06_Ledger proof.C13_Ledger.
+From Coq Require Import Permutation.
+From ELA Require Import model.Ledger proof.Ledger_unspent proof.C06_Ledger proof.C13_Ledger
+  proof.Ledger_addr proof.Ledger_addr_inv proof.C13_Full.
 From ELA Require corr.C13_corr. (* so that the correspondence checker is rebuilt with the model *)
 Import ListNotations.
 Local Open Scope N_scope.
@@ -14,16 +16,30 @@ Local Open Scope N_scope.
    unspent outputs of every transaction (as a set, duplicate free), recorded
    side-chain withdrawal hashes, recorded deposit returns, stored drafts.
 
-   PARTIAL: the per-address UTXO list is not part of [obs_eq] (not proved; it is
-   compared by the correspondence and by the snapshot oracle on the real store
-   on every run).  The full statement would add
-     forall addr, Permutation (q_utxos s2 addr hs) (q_utxos s addr hs). *)
+   This version needs only the C06 invariant and leaves out the per-address
+   UTXO list; C13_disconnect_connect below is the full statement. *)
 Theorem C13_disconnect_connect_partial : forall s c b s1 s2,
   inv s c -> c <> [] -> valid_block s b ->
   save_block s b = Ok s1 -> rollback_block cfg_fixed s1 b = Ok s2 ->
   obs_eq s2 s.
 Proof. exact disconnect_connect. Qed.
 Print Assumptions C13_disconnect_connect_partial.
+
+(* FULL statement for the modelled indexes.  With the stronger invariant [inv2]
+   (C14: tx index with heights and per-address index refine the chain, heights
+   increase) and a block higher than every block of the chain: connect then
+   disconnect additionally restores every (address, height) entry of the
+   per-address UTXO index as a multiset (an empty entry is the same as an
+   absent one in the model), and re-establishes [inv2].
+   Still conditional: both SaveBlock and RollbackBlock return Ok (their success
+   on valid blocks is observed on the real store, not proved). *)
+Theorem C13_disconnect_connect : forall s c b s1 s2,
+  inv2 s c -> c <> [] -> valid_block s b ->
+  (forall b', In b' c -> b_height b' < b_height b) ->
+  save_block s b = Ok s1 -> rollback_block cfg_fixed s1 b = Ok s2 ->
+  obs_eq s2 s /\ (forall a h, Permutation (s_addr s2 a h) (s_addr s a h)) /\ inv2 s2 c.
+Proof. exact disconnect_connect_full. Qed.
+Print Assumptions C13_disconnect_connect.
 
 (* A side-chain withdrawal that is rolled back can be included again: while
    connected its hashes are recorded, after the rollback they are not, and the
@@ -100,3 +116,15 @@ Example C13_fresh_keys_necessary :
              | _ => False end
   | _ => False end.
 Proof. vm_compute. auto. Qed.
+
+(* Non-vacuity of the full theorem's invariant and height hypothesis. *)
+Example C13_full_nonvacuous :
+  inv2 x_s0 [x_g] /\ (forall b', In b' [x_g] -> b_height b' < b_height (x_b 2)) /\
+  (match save_block x_s0 (x_b 1) with
+   | Ok s1 => s_addr s1 2 1 = [mkU 3 0 999] /\ s_addr s1 0 0 = [] /\
+              match rollback_block cfg_fixed s1 (x_b 1) with Ok s2 => s_addr s2 2 1 = [] /\ s_addr s2 0 0 = [mkU 1 0 1000] | _ => False end
+   | _ => False end).
+Proof.
+  split; [apply init_inv2; [reflexivity|repeat constructor; intros []|reflexivity]|].
+  split; [intros b' [<-|[]]; vm_compute; reflexivity|]. vm_compute. auto.
+Qed.
